@@ -154,7 +154,7 @@ PROPS = {
         # the Splicer model is the merge the property describes (take_is_trace, take_exactly_once):
         # a delivery that differs from it is an item out of place
         "correspondence_is_failure": {"splice": True},
-        "lean_modules": ["Props.Facts11"],
+        "lean_modules": ["Props.Facts11", "Props.Gen11", "Props.GenT11"],
         "groups": [{"name": "C11", "quick": 4000, "thorough": 150000},
                    # feeds over simulator-served actors and collections, through splicer.NewSplicer and the UI
                    {"name": "C07", "quick": 128, "thorough": 4000, "workers": 16}],
@@ -331,7 +331,7 @@ MANIFEST_TEXT = {
         "technique": "Lean 4 proof (well-founded recursion + functional induction; equivalence of the translated Go code with the model by induction on fuel) + differential correspondence",
     },
     "C11": {
-        "text": "Lean theorems for all source lists, timestamps and request sizes: each microharvest pops the first head with maximal timestamp; taking q items is a trace of pops, each source's delivered items followed by its remaining buffer equal its original buffer (exactly once, order kept); taking q1 then q2 equals taking q1+q2; skipping then taking equals dropping; the continuation is none exactly when the buffers ran dry. Tied to splicer.go by differential correspondence over synthetic sources through a package-internal shim.",
+        "text": "Lean theorems for all source lists, timestamps and request sizes: each microharvest pops the first head with maximal timestamp; taking q items is a trace of pops, each source's delivered items followed by its remaining buffer equal its original buffer (exactly once, order kept); taking q1 then q2 equals taking q1+q2; skipping then taking equals dropping; the continuation is none exactly when the buffers ran dry. Tied to splicer.go twice: the element type of Splicer, clone, replenish (its goroutine fan-out accepted only when each closure touches s[i] alone, then run in index order), microharvest and Harvest are translated to Lean on every run (extract/go2lean7.go -> Generated/GoSplicer.lean; interface values as Options so the nil tests are translated; the external Container.Harvest and Timestamp comparisons as parameters) and proved equal to the model for splicers without nil elements and quantity + startingPoint < 2^62 (Props/Gen11.lean), with the C11 theorems restated on the translated Harvest (Props/GenT11.lean); and by differential correspondence over synthetic sources through a package-internal shim.",
         "design_ref": "DESIGN.md §5 C11",
         "note": "Trusted: Lean kernel; correspondence check (testing); value semantics for the cloned slice-of-structs; replenish goroutines as an order-preserving map.",
         "technique": "Lean 4 proof (induction over pops with a first-maximum invariant) + differential correspondence",
